@@ -210,6 +210,39 @@ func siteMatches(p *Program, pat string, in ssa.Instruction) (string, bool) {
 			return "call through " + f[1], true
 		}
 		return "", false
+	case "closure-calling":
+		// a closure created here whose body (or a closure nested in it) calls the named function
+		mc, ok := in.(*ssa.MakeClosure)
+		if !ok {
+			return "", false
+		}
+		fn, _ := mc.Fn.(*ssa.Function)
+		want := f[1]
+		var calls func(f *ssa.Function) bool
+		calls = func(f *ssa.Function) bool {
+			if f == nil {
+				return false
+			}
+			for _, b := range f.Blocks {
+				for _, i2 := range b.Instrs {
+					if c, ok := i2.(*ssa.Call); ok {
+						if callee := c.Call.StaticCallee(); callee != nil && callee.Name() == want {
+							return true
+						}
+					}
+				}
+			}
+			for _, a := range f.AnonFuncs {
+				if calls(a) {
+					return true
+				}
+			}
+			return false
+		}
+		if calls(fn) {
+			return "closure calling " + want, true
+		}
+		return "", false
 	case "call":
 		c, ok := in.(*ssa.Call)
 		if !ok {
